@@ -100,6 +100,14 @@ CLAIMED["C03"] = dict(cat="other", technique="symbolic differentiation and serie
         "model at finite amplitude are run-time behaviour and are NOT decided.",
    note="Exact arithmetic; positive-constant assumptions for the sinusoidal sign check. DynamicRFKickMap is covered under C19.",
    ref="DESIGN.md §3 C03")
+CLAIMED["C16"] = dict(cat="other", technique="symbolic model of the std::vector operations (sample count, which index holds what), sign lattice over real/imaginary parts, homogeneity by substitution, pairing on the factory CFG",
+   text="Decides for every n and parameter set in the documented domain: each of the four model builders returns exactly n samples with frequency k at index k, writes model "
+        "values only to indices <= floor(n/2) and the literal zero above; Re Z >= 0 for free space, resistive wall, collimator (under the factory guard) and each parallel-plates "
+        "summand (Ai'^2 + u*Ai^2, u > 0, positive prefactor); Z(lambda i)/Z(i) is lambda^(1/3) resp. lambda^(1/2) and Im Z has opposite sign for free space and resistive wall; "
+        "the factory adds exactly one contribution in exactly the branches that mark a change, builds every model with its own nfreqs/fmax, and returns nullptr iff nothing was "
+        "selected. The wide-gap/high-frequency limit and sub-cutoff suppression of the parallel-plates model and finiteness of the Airy sums are numerical and NOT decided.",
+   note="Positivity assumptions on parameters as documented; exact arithmetic. The length of a file impedance is handled under C17.",
+   ref="DESIGN.md §3 C16")
 NOT_YET = "check not built yet in this round (static rule designed in DESIGN.md §3, not implemented)"
 NA = {}
 
